@@ -322,6 +322,50 @@ def h_concrete_seeded(ctx, case):
                         B = teneva.ANOVA(I, y, order, seed=np.random.default_rng(3))
                         out.append(np.array([B.sample(with_square=sq) for _ in range(12)]))
             return out
+    elif case == 'als_swap_fortran':
+        # rank-adaptive als with allow_swap on index arrays in Fortran order (what sample_rand returns):
+        # the same call repeated gives the same cores, and the caller's arrays are as they were
+        n = [5, 5, 5]
+        Am = np.random.default_rng(1).normal(size=(5, 5))
+        f = lambda I: Am[I[:, 0], I[:, 2]] + 0.1 * np.sin(I[:, 1])     # modes 0 and 2 coupled: the real code swaps modes
+        cols = np.meshgrid(*[np.arange(k) for k in n], indexing='ij')
+        Itr = np.vstack([c.reshape(-1) for c in cols]).T                # (Fortran-ordered integer array)
+        ytr = f(Itr)
+        Ivl, yvl = Itr.copy(), ytr.copy()
+        I0 = Itr.copy()
+        Y0_ = teneva.rand(n, 2, seed=3)
+        outs = []
+        for rep in range(3):
+            info = {}
+            Y = teneva.als(Itr, ytr, Y0_, nswp=3, r=4, I_vld=Ivl, y_vld=yvl, allow_swap=True, info=info)
+            outs.append(_flat(Y) + [np.asarray(info.get('rearrange'))])
+        info = {}
+        Yc = teneva.als(np.ascontiguousarray(I0), ytr, Y0_, nswp=3, r=4, I_vld=Ivl, y_vld=yvl, allow_swap=True, info=info)
+        ok = all(_identical(ctx, outs[0], o) for o in outs[1:]) and _identical(ctx, outs[0][:-1], _flat(Yc))
+        ok = ok and np.array_equal(Itr, I0) and Itr.flags['F_CONTIGUOUS']
+        # (whether the implementation swaps modes on this data is its own business; the claim does not depend on it)
+        ctx.claim('repeated_call_identical', bool(ok))
+        return
+    elif case == 'anova_fpath':
+        # a saved model restored through anova(..., fpath=...): the noise entries of the cores come from
+        # the seed given to THIS call (integer seed: identical cores; generator object: its next draws)
+        import tempfile, shutil
+        tmp = tempfile.mkdtemp(prefix='c10_anova_')
+        try:
+            I = teneva.sample_lhs([3, 4, 3], 30, seed=2)
+            y = np.sin(np.arange(30.)) + 2.
+            path = tmp + '/model.pickle'
+            teneva.ANOVA(I, y, 1, seed=1).save(path)
+            call = lambda: [teneva.anova(None, None, r=3, order=1, noise=0.5, seed=5, fpath=path),
+                            teneva.anova(None, None, r=2, order=1, noise=0.5, seed=np.random.default_rng(9), fpath=path)]
+            ok = runs(call)
+            # the same cores as the model built from the data with that seed
+            ref = teneva.anova(I, y, r=3, order=1, noise=0.5, seed=5)
+            ok = ok and _identical(ctx, _flat(call()[0]), _flat(ref))
+        finally:
+            shutil.rmtree(tmp, ignore_errors=True)
+        ctx.claim('same_seed_same_result_any_global_state', bool(ok))
+        return
     elif case == 'als_func_repeat':
         # deterministic routine called twice with the very same objects (unregularised branch included)
         rng = np.random.default_rng(5)
@@ -404,7 +448,7 @@ def instances(tier):
     out.append({'func': 'h_anova_history', 'params': {}})
     out.append({'func': 'h_restart_generator', 'params': {}, 'opts': {'symbolic_signs': False}})
     for case in ('cross_act_0', 'cross_act_1', 'cross_act_2', 'cross_act_3', 'core_qr_rand', 'sample_func', 'sample_func_history',
-                 'als_func_repeat', 'lhs_after_history', 'anova_sample'):
+                 'als_func_repeat', 'lhs_after_history', 'anova_sample', 'anova_fpath', 'als_swap_fortran'):
         out.append({'func': 'h_concrete_seeded', 'params': {'case': case}, 'opts': {'concrete_only': True}})
     for name in ['rand', 'rand_norm', 'rand_stab', 'sample', 'sample_lhs', 'sample_rand', 'sample_rand_poi',
                  'sample_tt', 'sample_square', 'sample_square_dup', 'anova']:
